@@ -553,6 +553,11 @@ func init() {
 					v := bmx.Pick(c.r, []string{"red", "blue", "green", "left", "right", "black"})
 					inputs[k] = []byte("<x-left style=\"color: " + v + "\">L</x-left><x-right style=\"color: " + v + "\">R</x-right><x-mid style=\"color: " + v + "\">M</x-mid>")
 				}
+				if k%4 == 1 {
+					// property names from which one vendor prefix uncovers another: the order of stripping decides
+					v := bmx.Pick(c.r, []string{"red", "blue"})
+					inputs[k] = []byte("<my-a style=\"-moz--webkit-color: " + v + "; -webkit--moz-color: " + v + "; -o--ms-width: 1px; mso--webkit-color: " + v + "; -ms-mso-color: " + v + "\">p</my-a><x-left style=\"-webkit--o-color: left; -moz-mso-color: left\">q</x-left>")
+				}
 				if k%4 == 3 {
 					v := bmx.Pick(c.r, []string{"aaa", "bbb", "ccc", "ddd", "eee", "zzz"})
 					inputs[k] = []byte("<w-k-x title=\"" + v + "\">t</w-k-x><w-k title=\"" + v + "\">u</w-k><q-x title=\"" + v + "\">v</q-x>")
@@ -619,10 +624,20 @@ func init() {
 	// values it accepts and values it rejects, decides concurrently what it decides alone
 	concCSS := func(c *ctx) {
 		g := bmx.NewCSSGen(c.r, c.work)
-		ops := []*bmx.Op{{Kind: "AE", Names: []string{"b"}}, {Kind: "AA", Names: []string{"style"}, Scope: "G"}, {Kind: "AS", Names: g.Props, Scope: "G"}}
+		// the registered properties, and names near them that have no handler of their own (logical
+		// variants, a segment more, a segment less): "no handler" must be as stable as "this handler"
+		near := []string{"border-inline-width", "border-block-width", "border-block-color", "border-inline-style", "overflow-inline", "overflow-block", "margin-inline", "margin-block-start",
+			"padding-inline-end", "inset-inline", "color-scheme", "border-width-x", "border", "border-top", "outline-inline", "min-inline-size", "max-block-size"}
+		props := append(append([]string{}, g.Props...), near...)
+		ops := []*bmx.Op{{Kind: "AE", Names: []string{"b"}}, {Kind: "AA", Names: []string{"style"}, Scope: "G"}, {Kind: "AS", Names: props, Scope: "G"}}
 		pid, pol := c.policy(ops)
 		all := append(append([]string{}, bmx.CSSValuePool...), g.Vocab...)
 		var inputs [][]byte
+		for _, prop := range near {
+			for _, v := range []string{"thin", "1px", "red", "solid", "hidden", "auto", "initial", "light dark", "1px solid red"} {
+				inputs = append(inputs, []byte("<b style=\""+prop+": "+v+"\">t</b>"))
+			}
+		}
 		for _, prop := range g.Props {
 			h := cssGetDefault(prop)
 			nacc, nrej := 0, 0
